@@ -419,6 +419,32 @@ class ProgGen:
                                                 PArg(PType("class", d.qname, "sptr"), "d")])))
             prev = d
 
+    def force_overloads(self):
+        """overload groups everywhere an id is spent per overload: static methods, methods, constructors and
+        free functions with two or three overloads told apart by arity or argument class, plus trailing
+        defaults (which expand into further ids)"""
+        t = self.t
+        ns = [t.pick(NSN, "ns")] if t.bool(0.5, "ov-ns") else []
+        c = PClass(self.fresh(["Gauge", "Meter", "Probe"]), ns)
+        self.p.classes.append(c)
+        I, D, S = PType("prim", "int"), PType("prim", "double"), PType("prim", "string")
+        c.ctors.append(PFunc("ctor", c.name, None, []))
+        c.ctors.append(PFunc("ctor", c.name, None, [PArg(S, "label")]))
+        c.ctors.append(PFunc("ctor", c.name, None, [PArg(D, "lo"), PArg(D, "hi", ("2.5", 2.5))]))
+        rets = [I, D, S, PType("class", c.qname, "sptr"), PType("class", c.qname, "val")]
+        sigs = [[], [PArg(S, "s")], [PArg(D, "x"), PArg(S, "s")], [PArg(D, "x"), PArg(D, "y"), PArg(S, "s")],
+                [PArg(D, "x"), PArg(D, "y", ("0.5", 0.5)), PArg(D, "z", ("1.5", 1.5))]]
+        for kind, name, dest in (("static", "Create", c.statics), ("static", "Scale", c.statics),
+                                 ("method", "read", c.methods)):
+            for sg in t.shuffle(list(range(len(sigs))), "ov-sigs")[:2 + t.choose(2, "ov-n")]:
+                args = [PArg(a.ty, a.name, a.default) for a in sigs[sg]]
+                ret = t.pick(rets if name != "Scale" else rets[:3], "ov-ret")
+                dest.append(PFunc(kind, name, ret, args, const=(kind == "method" and t.bool(0.5, "ov-const"))))
+        fname = self.fresh(["combine", "blend", "merge"])
+        for sg in t.shuffle(list(range(len(sigs))), "ov-fsigs")[:3]:
+            self.p.functions.append((ns, PFunc("func", fname, t.pick(rets[:3], "ov-fret"),
+                                               [PArg(a.ty, a.name, a.default) for a in sigs[sg]])))
+
     def force_enum_nested(self):
         self.force_enum(nested=True)
 
